@@ -149,6 +149,8 @@ func c14(c *Ctx) (*report.Result, error) {
 	res.Assumptions = []string{"a search-attribute container is *common.SearchAttributes or a map[string]*common.Payload whose field name mentions search attributes (the two forms the property names)"}
 	res.RuleDoc["O14.7"] = "translation, access control and repair keep no memory between messages: no shipped function of the interceptor, proto/compat, auth and collect packages stores into package-level state, receiver fields or sync.Maps after construction - a cache keyed by message type or content makes the treatment of one message depend on the ones before it"
 	checkStateless(c, res, "O14.7", []string{"interceptor", "proto/compat", "auth", "collect"}, map[string]string{})
+	res.RuleDoc["O14.9"] = "one matcher, chosen by configuration and not by map order: the translator returns the first entry of its per-namespace matcher map, so that map must have at most one entry - makeServerOptions refuses LenNamespaces() > 1 before building the translator, LenNamespaces is the length of the map FlattenMaps ranges over, and FlattenMaps / createStringMatchers emit exactly one entry per element"
+	checkSingleNamespaceGuard(c, res, "O14.9")
 	res.RuleDoc["O14.8"] = "no swallowed error in the files the mechanism lives in: no function returns a nil error on a path on which an error obtained from a call is known to be non-nil (io.EOF from a stream Recv, the normal end of a receive loop, is the one accepted idiom)"
 	checkNoSwallowedErrors(c, res, "O14.8", []string{"interceptor/search_attribute_translator.go", "interceptor/reflection.go", "interceptor/translation_interceptor.go"})
 	return res, nil
@@ -378,6 +380,23 @@ func checkSAMethodFilter(c *Ctx, res *report.Result, m *apiModel) {
 				if gc, isC := g.Cond.(*ssa.Call); isC && g.Side && gc.Call.IsInvoke() && gc.Call.Method.Name() == "MatchMethod" && gc.Call.Value == cc.Value {
 					if p, okp := flow.FieldPath(gc.Call.Args[0]); okp && strings.HasSuffix(p, ".FullMethod") {
 						ok = true
+					}
+				}
+			}
+			// or the translator comes out of a helper that admits exactly the translators whose
+			// MatchMethod(info.FullMethod) is true
+			if !ok {
+				if ld, isLd := cc.Value.(*ssa.UnOp); isLd && ld.Op == token.MUL {
+					if ia, isIA := ld.X.(*ssa.IndexAddr); isIA {
+						if hc, isC := flow.ResolveLoad(ia.X).(*ssa.Call); isC {
+							if g := flow.StaticCallee(&hc.Call); g != nil {
+								if pidx, isFilter := matchFilterSummary(g, "translators"); isFilter && pidx < len(hc.Call.Args) {
+									if p, okp := flow.FieldPath(hc.Call.Args[pidx]); okp && strings.HasSuffix(p, ".FullMethod") {
+										ok = true
+									}
+								}
+							}
+						}
 					}
 				}
 			}
